@@ -22,6 +22,14 @@ var frozenHashKey [4]uintptr
 // Seed is the hash seed in force (0 = untouched, process-random).
 var Seed uint64
 
+// RealStdin is the process's real standard input (the worker protocol reads it). With
+// VERIF_FAKE_STDIN=1 os.Stdin is replaced, before package syntax captures it for //os.stdin, by the read
+// end of a pipe whose write end is FakeStdinW: the simulator then decides what //os.stdin delivers and when.
+var (
+	RealStdin  = os.Stdin
+	FakeStdinW *os.File
+)
+
 func splitmix(x *uint64) uint64 {
 	*x += 0x9e3779b97f4a7c15
 	z := *x
@@ -31,6 +39,11 @@ func splitmix(x *uint64) uint64 {
 }
 
 func init() {
+	if os.Getenv("VERIF_FAKE_STDIN") == "1" {
+		if r, w, err := os.Pipe(); err == nil {
+			os.Stdin, FakeStdinW = r, w
+		}
+	}
 	s := os.Getenv("VERIF_HASH_SEED")
 	if s == "" {
 		return
